@@ -4,6 +4,7 @@
 // crbegin..crend, nitro::lang::reverse), data(), front/back are compared; copies must be equal and independent, moves
 // transfer the whole sequence, assignment replaces the contents.
 #include "fv_explore.hpp"
+#include "fv_pod.hpp"
 
 int main(int argc, char** argv)
 {
@@ -16,6 +17,16 @@ int main(int argc, char** argv)
     {
         auto doc = js::load(a.replay);
         const js::Value& w = doc.has("witness") ? doc.at("witness") : doc;
+        if (w.has("pod"))
+        {
+            mc::Report r;
+            fvpod::all("C07", r, false);
+            for (auto& v : r.violations)
+                printf("  FAILED clause: %s\n    %s\n", v.second.clause.c_str(), v.second.detail.c_str());
+            if (r.violations.empty())
+                printf("replay C07 (trivially copyable elements): conforms\n");
+            return r.violations.empty() ? 0 : 1;
+        }
         ex.cfg.nvalues = static_cast<int>(w.n("nvalues", 2));
         return ex.replay(w);
     }
@@ -30,6 +41,7 @@ int main(int argc, char** argv)
     double t0 = mc::now_s();
     ex.run();
     ex.long_traces(ex.total);
+    fvpod::all("C07", ex.total, a.asan());
     auto& total = ex.total;
     total.counters["bound_max_capacity"] = ex.cfg.max_cap;
     total.counters["bound_values"] = ex.cfg.nvalues;
